@@ -11,16 +11,16 @@ import (
 )
 
 type Obl struct {
-	Fn      string
-	Kind    string // index slice nilmap typeassert panic pre post inv-init inv-keep variant atreturn atcall frame chan div cover
-	Detail  string
-	Label   string
-	Pos     token.Pos
-	Props   []string // nil => all properties of the function
-	Src     string   // contract clause text, if any
-	Queries []*Query
-	Name    string // assigned after the run
-	Ord     int
+	Fn       string
+	Kind     string // index slice nilmap typeassert panic pre post inv-init inv-keep variant atreturn atcall frame chan div cover
+	Detail   string
+	Label    string
+	Pos      token.Pos
+	Props    []string // nil => all properties of the function
+	Src      string   // contract clause text, if any
+	Queries  []*Query
+	Name     string // assigned after the run
+	Ord      int
 	InlineOf string
 	Seq      int
 	Clause   *Clause // the contract clause behind a post/atreturn obligation (for the replay oracle)
@@ -35,12 +35,12 @@ type Query struct {
 	Trace string
 	Ctx   *Ctx
 	// result
-	Status  string // unsat sat unknown timeout error trivial
-	Solver  string
-	TimeS   float64
-	Output  string
+	Status   string // unsat sat unknown timeout error trivial
+	Solver   string
+	TimeS    float64
+	Output   string
 	ModelTxt string
-	File string
+	File     string
 }
 
 // CallCover: satisfiability of the path condition right before and right after assuming a callee's postcondition
@@ -66,7 +66,7 @@ type loopInfo struct {
 	head    *ssa.BasicBlock
 	ord     int
 	body    map[*ssa.BasicBlock]bool
-	cells   []interface{}     // cells stored to in the loop
+	cells   []interface{}        // cells stored to in the loop
 	fields  map[string][]baseRef // heap key -> objects written (nil entry => wholesale)
 	whole   map[string]bool
 	hasCall bool
@@ -74,30 +74,30 @@ type loopInfo struct {
 
 // Ctx verifies one function.
 type Ctx struct {
-	V         *Verifier
-	Fn        *ssa.Function
-	FC        *FuncContract
-	Key       string
-	decls     []string
-	declSet   map[string]bool
-	nfresh    int
-	nepoch    int
-	obls      map[string]*Obl
-	oblOrder  []*Obl
-	paths     int
-	maxPaths  int
-	undecided []string
-	trusted   map[string]bool // assumptions / trusted callees used
-	inlined   map[string]bool
+	V             *Verifier
+	Fn            *ssa.Function
+	FC            *FuncContract
+	Key           string
+	decls         []string
+	declSet       map[string]bool
+	nfresh        int
+	nepoch        int
+	obls          map[string]*Obl
+	oblOrder      []*Obl
+	paths         int
+	maxPaths      int
+	undecided     []string
+	trusted       map[string]bool // assumptions / trusted callees used
+	inlined       map[string]bool
 	usedContracts map[string]bool
-	allocSite map[ssa.Instruction]int
+	allocSite     map[ssa.Instruction]int
 	seenSentinels []string
-	curClause *Clause
-	directStores map[interface{}]bool // cells a loop assigns directly (as opposed to element-wise)
-	callCovered map[string]bool
-	blockCovers map[*ssa.BasicBlock][]*Query
-	assetFile   string // set for data obligations over an embedded file
-	callCovers  []*CallCover
+	curClause     *Clause
+	directStores  map[interface{}]bool // cells a loop assigns directly (as opposed to element-wise)
+	callCovered   map[string]bool
+	blockCovers   map[*ssa.BasicBlock][]*Query
+	assetFile     string // set for data obligations over an embedded file
+	callCovers    []*CallCover
 }
 
 func (c *Ctx) declare(line string) {
@@ -149,12 +149,12 @@ func (c *Ctx) heapHavoc(st *State, key string, sort Sort) Term {
 }
 
 type fieldInfo struct {
-	Key  string
-	Sort Sort
-	GoT  types.Type
-	Idx  int
+	Key    string
+	Sort   Sort
+	GoT    types.Type
+	Idx    int
 	Struct *types.Struct
-	Owner types.Type
+	Owner  types.Type
 }
 
 func structOf(t types.Type) (*types.Struct, types.Type) {
@@ -349,6 +349,9 @@ func (q *Query) SMT(mode string) string {
 	fmt.Fprintf(&b, "; obligation: %s\n; path: %s\n", q.Obl.Name, q.Trace)
 	b.WriteString("(set-option :produce-models true)\n(set-logic ALL)\n")
 	b.WriteString(c.V.prelude)
+	if strings.Contains(body2, "SeqC") || strings.Contains(body2, "_C ") {
+		b.WriteString(PreludeC())
+	}
 	b.WriteString(c.V.lits.Decls(body2))
 	b.WriteString(specDecls)
 	for _, d := range c.decls[:q.NDecl] {
